@@ -95,6 +95,9 @@ func (v DenseReal32Vector) SLICE(i, j int) DenseReal32Vector {
   return v[i:j]
 }
 func (v DenseReal32Vector) APPEND(w DenseReal32Vector) DenseReal32Vector {
+  // v might be a slice of a longer vector, do not
+  // overwrite the elements behind it
+  v = v[:len(v):len(v)]
   return append(v, w...)
 }
 func (v DenseReal32Vector) ToDenseReal32Matrix(n, m int) *DenseReal32Matrix {
@@ -148,6 +151,9 @@ func (v DenseReal32Vector) Swap(i, j int) {
   v[i], v[j] = v[j], v[i]
 }
 func (v DenseReal32Vector) AppendScalar(scalars ...Scalar) Vector {
+  // v might be a slice of a longer vector, do not
+  // overwrite the elements behind it
+  v = v[:len(v):len(v)]
   for _, scalar := range scalars {
     switch s := scalar.(type) {
     case *Real32:
@@ -159,6 +165,9 @@ func (v DenseReal32Vector) AppendScalar(scalars ...Scalar) Vector {
   return v
 }
 func (v DenseReal32Vector) AppendVector(w_ Vector) Vector {
+  // v might be a slice of a longer vector, do not
+  // overwrite the elements behind it
+  v = v[:len(v):len(v)]
   switch w := w_.(type) {
   case DenseReal32Vector:
     return append(v, w...)
@@ -227,6 +236,9 @@ func (v DenseReal32Vector) ResetDerivatives() {
   }
 }
 func (v DenseReal32Vector) AppendMagicScalar(scalars ...MagicScalar) MagicVector {
+  // v might be a slice of a longer vector, do not
+  // overwrite the elements behind it
+  v = v[:len(v):len(v)]
   for _, scalar := range scalars {
     switch s := scalar.(type) {
     case *Real32:
@@ -238,6 +250,9 @@ func (v DenseReal32Vector) AppendMagicScalar(scalars ...MagicScalar) MagicVector
   return v
 }
 func (v DenseReal32Vector) AppendMagicVector(w_ MagicVector) MagicVector {
+  // v might be a slice of a longer vector, do not
+  // overwrite the elements behind it
+  v = v[:len(v):len(v)]
   switch w := w_.(type) {
   case DenseReal32Vector:
     return append(v, w...)
